@@ -25,6 +25,7 @@ type Val struct {
 	mask   *big.Int // all set bits of the value lie within mask (unsigned values)
 	bfTerm string   // value == bfTerm * 2^bfLo where bfTerm is a BITS term
 	bfLo   int
+	boxed  *Val // interface value: the value that was boxed (when known)
 	clo    *ssa.MakeClosure
 	fn     *ssa.Function
 	frame  *Frame // frame that created a closure value
@@ -324,6 +325,10 @@ func (fr *Frame) load(l *Loc) *Val {
 		_ = a
 		vc.abstracted("array value load " + l.typ.String())
 		return fr.havocVal(l.typ, "arrval")
+	}
+	if l.kind == locGlobal && l.root == "G$io_EOF" {
+		vc.assumed["io.EOF is never reassigned"] = true
+		return &Val{t: mkIfc("1000000", "999999"), sort: sIfc, typ: l.typ}
 	}
 	if l.kind == locGlobal && strings.HasPrefix(l.root, "G$Err") && len(l.path) == 0 && sortOf(l.typ) == sIfc {
 		// package-level error values: immutable, non-nil, pairwise distinct
